@@ -2211,7 +2211,8 @@ static void LPFwriteSVector(
    std::ostream&         p_output,                     ///< output stream
    const NameSet*        p_cnames,                     ///< column names
    const SVectorBase<R>& p_svec,                       ///< vector to write
-   const bool            writeZeroCoefficients = false ///< write zero objective coefficients
+   const bool            writeZeroCoefficients = false, ///< write zero objective coefficients
+   const bool            writeEmptyCols = false         ///< write a zero coefficient for columns without entries
 )
 {
 
@@ -2222,7 +2223,7 @@ static void LPFwriteSVector(
    {
       const R coeff = p_svec[j];
 
-      if(coeff == 0 && !writeZeroCoefficients)
+      if(coeff == 0 && !writeZeroCoefficients && !(writeEmptyCols && p_lp.colVector(j).size() == 0))
          continue;
 
       if(num_coeffs == 0)
@@ -2266,7 +2267,7 @@ static void LPFwriteObjective(
    DSVectorBase<R> svec(obj.dim());
    svec.operator = (obj);
    svec *= R(sense);
-   LPFwriteSVector(p_lp, p_output, p_cnames, svec, writeZeroObjective);
+   LPFwriteSVector(p_lp, p_output, p_cnames, svec, writeZeroObjective, true);
    p_output << "\n";
 }
 
@@ -2600,7 +2601,7 @@ void SPxLPBase<R>::writeMPS(
             MPSwriteRecord(p_output, nullptr, getColName(*this, i, p_cnames, name),
                            MPSgetRowName(*this, col.index(k), p_rnames, name1), col.value(k));
 
-         if(isNotZero(maxObj(i), this->tolerances()->epsilon()) || writeZeroObjective)
+         if(isNotZero(maxObj(i), this->tolerances()->epsilon()) || writeZeroObjective || col.size() == 0)
             MPSwriteRecord(p_output, nullptr, getColName(*this, i, p_cnames, name), "MINIMIZE", -maxObj(i));
       }
 
